@@ -8,12 +8,18 @@ written as a checked operation of `Model.Raw` (its failing branch is `Outcome.pa
 
 `Model.SecretStream.pull` / `push` (the models the driver runs and all functional theorems are about) use
 total list operations and truncated subtraction; `Proofs/RawExtra.lean` and `Proofs/StreamPushRawExtra.lean`
-prove that the two agree up to the key-stream limit of the ChaCha20 crate, i.e. that none of the `panic`
-branches below is reachable — from the guards that precede them, not by construction — EXCEPT the last
-`apply_keystream` for inputs within 64 bytes of `MESSAGEBYTES_MAX` (`pullRaw_panics_near_max`,
-`pushRaw_panics_near_max`: the crate hands out `u32::MAX − 2` blocks after `seek(128)`, the guard of the source
-allows `u32::MAX − 1`).  The `…Old` variants are the code before the fixes E5 (length guard) and "pull keeps
-undefined tag bits" (`Tag::from_bits(..).expect`) and DO panic.
+prove that the two agree for every input the length guards let through, i.e. that none of the `panic` branches
+below is reachable — from the guards that precede them, not by construction.
+
+E16 (fixed).  The ChaCha20 crate hands out `u32::MAX − 2` blocks after `seek(128)`, i.e.
+`STREAM_BODY_MAX = 64·(2^32 − 3)` bytes.  The source used to compare with `MESSAGEBYTES_MAX = 64·(2^32 − 2)`
+(`push`: `message.len()`, `pull`: `ciphertext.len()`), one block too generous, and the last `apply_keystream`
+panicked for inputs within 64 bytes of `MESSAGEBYTES_MAX` (demonstrated on the real code).  The current source
+compares `message.len()` / `ciphertext.len() − ABYTES` with `KEYSTREAM_MESSAGEBYTES_MAX = MESSAGEBYTES_MAX − 64
+= STREAM_BODY_MAX`; that is what `pushRaw` / `pullRaw` / `objPushRaw` / `objPullCode` below carry.  The
+`…Old16` functions are the code before that fix and DO panic (`pullRawOld16_panics_near_max`,
+`pushRawOld16_panics_near_max`).  The `…Old` / `…NoGuard` variants are the (otherwise current) code before the
+fixes E5 (length guard) and "pull keeps undefined tag bits" (`Tag::from_bits(..).expect`) and DO panic too.
 
 Fixed-size arrays (`state.k : [u8; 32]`, `state.nonce : [u8; 12]`, `block : [u8; 64]`) indexed by
 constants are not given panic branches: those bounds are checked by the Rust compiler.  The state update
@@ -37,8 +43,26 @@ def U32_MAX : Nat := 2 ^ 32 - 1
 
 /-- the longest message body whose key stream (taken after `cipher.seek(128)`, i.e. from block 2) the crate
 hands out: `remaining_blocks = u32::MAX - 2` blocks, `64 · (2^32 − 3)` bytes.  This is 64 bytes LESS than
-`MESSAGEBYTES_MAX_RAW = 64 · (2^32 − 2)`, the bound the dryoc source checks. -/
+`MESSAGEBYTES_MAX_RAW = 64 · (2^32 − 2)`, the bound the dryoc source checked before fix E16, and it is the value
+of the source's `KEYSTREAM_MESSAGEBYTES_MAX = MESSAGEBYTES_MAX − 64`, the bound it checks now
+(`Proofs.SecretStream.KEYSTREAM_MESSAGEBYTES_MAX_eq`, `Proofs.GenStream.constants_eq`). -/
 def STREAM_BODY_MAX : Nat := 64 * (2 ^ 32 - 3)
+
+/-- the length guard of `push` in front of the key-stream requests.  `fix16 = true` is the current source,
+`if message.len() > KEYSTREAM_MESSAGEBYTES_MAX { return Err }`; `false` is the source before fix E16,
+`if message.len() > CRYPTO_SECRETSTREAM_XCHACHA20POLY1305_MESSAGEBYTES_MAX { return Err }` -/
+def pushMaxGuard (fix16 : Bool) (msgLen : Nat) : Outcome Unit :=
+  if fix16 then errIf (msgLen > STREAM_BODY_MAX) else errIf (msgLen > MESSAGEBYTES_MAX_RAW)
+
+/-- the third length guard of `pull`.  `fix16 = true` is the current source,
+`if ciphertext.len() - ABYTES > KEYSTREAM_MESSAGEBYTES_MAX { return Err }` (the subtraction is a checked
+operation like any other); `false` is the source before fix E16,
+`if ciphertext.len() > CRYPTO_SECRETSTREAM_XCHACHA20POLY1305_MESSAGEBYTES_MAX { return Err }` -/
+def pullMaxGuard (fix16 : Bool) (ctLen : Nat) : Outcome Unit :=
+  if fix16 then do
+    let n ← checkedSub ctLen ABYTES
+    errIf (n > STREAM_BODY_MAX)
+  else errIf (ctLen > MESSAGEBYTES_MAX_RAW)
 
 /-- `cipher.seek(pos); cipher.apply_keystream(&mut buf)` with `buf.len() = len`, for a block-aligned `pos`
 (all call sites: a fresh cipher, `seek(64)`, `seek(128)` — `try_seek` then sets the core's block counter to
@@ -76,16 +100,18 @@ def tagBlockRaw (P : Prims) (s : State) (ct : Bytes) : Outcome (UInt8 × Bytes) 
 /-- body of `crypto_secretstream_xchacha20poly1305_pull(state, message, tag, ciphertext, ad)`.
 `lengthGuard = true` is the current source; `false` is the source before fix E5 (no
 `ciphertext.len() < ABYTES` check in front of `ciphertext.len() - ABYTES`).
+`fix16 = true` is the current source; `false` is the source before fix E16 (third guard, see `pullMaxGuard`).
 `.err` = an early `return Err(..)`: all of them come before the first write to `message`, `tag` or
 `state`. -/
-def pullRawBody (lengthGuard : Bool) (P : Prims) (s : State) (m : Bytes) (ct ad : Bytes) :
+def pullRawBodyWith (lengthGuard fix16 : Bool) (P : Prims) (s : State) (m : Bytes) (ct ad : Bytes) :
     Outcome Pulled := do
   let pad0 := zeros 16
   errIfWhen lengthGuard (ct.length < ABYTES)
   -- `if message.len() < ciphertext.len() - ABYTES { return Err }`
   let need ← checkedSub ct.length ABYTES
   errIf (m.length < need)
-  errIf (ct.length > MESSAGEBYTES_MAX_RAW)
+  -- `if ciphertext.len() - ABYTES > KEYSTREAM_MESSAGEBYTES_MAX { return Err }`
+  pullMaxGuard fix16 ct.length
   -- `cipher.apply_keystream(&mut mac_key)` (mac_key = 32 zero bytes); `Poly1305::new(&mac_key)`
   let macKey ← keystream P s 0 32
   -- `mac.update(associated_data); mac.update(&_pad0[..pad16(associated_data.len())])`
@@ -124,9 +150,25 @@ def pullRawBody (lengthGuard : Bool) (P : Prims) (s : State) (m : Bytes) (ct ad 
   -- state update, `Ok(mlen)`
   pure ⟨.ok mlen, dst ++ m.drop mlen, decryptedTag, advance P s mac decryptedTag⟩
 
+/-- the body of the current source (fix E16 in place) -/
+def pullRawBody (lengthGuard : Bool) (P : Prims) (s : State) (m : Bytes) (ct ad : Bytes) : Outcome Pulled :=
+  pullRawBodyWith lengthGuard true P s m ct ad
+
+/-- counter-model: the body before fix E16 (third guard `ciphertext.len() > MESSAGEBYTES_MAX`) -/
+def pullRawBodyOld16 (lengthGuard : Bool) (P : Prims) (s : State) (m : Bytes) (ct ad : Bytes) : Outcome Pulled :=
+  pullRawBodyWith lengthGuard false P s m ct ad
+
 /-- `Pulled` view of a body result: on `Err` and on panic nothing has been written -/
 def pullRawWith (lengthGuard : Bool) (P : Prims) (s : State) (m : Bytes) (tagv : UInt8) (ct ad : Bytes) : Pulled :=
   match pullRawBody lengthGuard P s m ct ad with
+  | .ok r => r
+  | .err => ⟨.err, m, tagv, s⟩
+  | .panic => ⟨.panic, m, tagv, s⟩
+
+/-- the same view of the body before fix E16 -/
+def pullRawWithOld16 (lengthGuard : Bool) (P : Prims) (s : State) (m : Bytes) (tagv : UInt8) (ct ad : Bytes) :
+    Pulled :=
+  match pullRawBodyOld16 lengthGuard P s m ct ad with
   | .ok r => r
   | .err => ⟨.err, m, tagv, s⟩
   | .panic => ⟨.panic, m, tagv, s⟩
@@ -138,6 +180,10 @@ def pullRaw (P : Prims) (s : State) (m : Bytes) (tagv : UInt8) (ct ad : Bytes) :
 /-- counter-model: the classic `pull` before fix E5 -/
 def pullRawOld (P : Prims) (s : State) (m : Bytes) (tagv : UInt8) (ct ad : Bytes) : Pulled :=
   pullRawWith false P s m tagv ct ad
+
+/-- counter-model: the classic `pull` before fix E16 (pre-fix code: panics for 47 ciphertext lengths) -/
+def pullRawOld16 (P : Prims) (s : State) (m : Bytes) (tagv : UInt8) (ct ad : Bytes) : Pulled :=
+  pullRawWithOld16 true P s m tagv ct ad
 
 /-! ### push, code-shaped -/
 
@@ -156,14 +202,16 @@ def finalizeInto (out mac : Bytes) : Outcome Bytes := do
 
 /-- body of `crypto_secretstream_xchacha20poly1305_push(state, ciphertext, message, ad, tag)` in source
 order; `ct` is the caller's ciphertext buffer, the result is its content and the state afterwards.
-Both `return Err(..)` come before the first write. -/
-def pushRawBody (P : Prims) (s : State) (ct msg ad : Bytes) (tag : UInt8) : Outcome (Bytes × State) := do
+Both `return Err(..)` come before the first write.  `fix16 = true` is the current source; `false` is the
+source before fix E16 (second guard, see `pushMaxGuard`). -/
+def pushRawBodyWith (fix16 : Bool) (P : Prims) (s : State) (ct msg ad : Bytes) (tag : UInt8) :
+    Outcome (Bytes × State) := do
   let pad0 := zeros 16
   -- `if ciphertext.len() != message.len() + ABYTES { return Err }`
   let need ← checkedAdd msg.length ABYTES
   errIf (ct.length ≠ need)
-  -- `if message.len() > MESSAGEBYTES_MAX { return Err }`
-  errIf (msg.length > MESSAGEBYTES_MAX_RAW)
+  -- `if message.len() > KEYSTREAM_MESSAGEBYTES_MAX { return Err }`
+  pushMaxGuard fix16 msg.length
   -- `cipher.apply_keystream(&mut mac_key)`; `Poly1305::new(&mac_key)`
   let macKey ← keystream P s 0 32
   -- `mac.update(associated_data); mac.update(&_pad0[..pad16(associated_data.len())])`
@@ -207,15 +255,32 @@ def pushRawBody (P : Prims) (s : State) (ct msg ad : Bytes) (tag : UInt8) : Outc
   let written ← sliceFrom ct e
   pure (ct, advance P s written tag)
 
+/-- the body of the current source (fix E16 in place) -/
+def pushRawBody (P : Prims) (s : State) (ct msg ad : Bytes) (tag : UInt8) : Outcome (Bytes × State) :=
+  pushRawBodyWith true P s ct msg ad tag
+
+/-- counter-model: the body before fix E16 (second guard `message.len() > MESSAGEBYTES_MAX`) -/
+def pushRawBodyOld16 (P : Prims) (s : State) (ct msg ad : Bytes) (tag : UInt8) : Outcome (Bytes × State) :=
+  pushRawBodyWith false P s ct msg ad tag
+
 /-- the classic `push` as it is in the source -/
 def pushRaw (P : Prims) (s : State) (ct msg ad : Bytes) (tag : UInt8) : Outcome (Bytes × State) :=
   pushRawBody P s ct msg ad tag
+
+/-- counter-model: the classic `push` before fix E16 (pre-fix code: panics for 64 message lengths) -/
+def pushRawOld16 (P : Prims) (s : State) (ct msg ad : Bytes) (tag : UInt8) : Outcome (Bytes × State) :=
+  pushRawBodyOld16 P s ct msg ad tag
 
 /-- `DryocStream<Push>::push` in source order: `ciphertext.resize(message.len() + ABYTES, 0)`, the classic
 `push` on `&mut self.state`, `?`, `Ok(ciphertext)` -/
 def objPushRaw (P : Prims) (s : State) (msg ad : Bytes) (tag : UInt8) : Outcome (Bytes × State) := do
   let n ← checkedAdd msg.length ABYTES
   pushRaw P s (zeros n) msg ad tag
+
+/-- counter-model: `DryocStream<Push>::push` over the classic `push` before fix E16 -/
+def objPushRawOld16 (P : Prims) (s : State) (msg ad : Bytes) (tag : UInt8) : Outcome (Bytes × State) := do
+  let n ← checkedAdd msg.length ABYTES
+  pushRawOld16 P s (zeros n) msg ad tag
 
 /-! ### object layer -/
 
@@ -224,18 +289,19 @@ def tagFromBits (b : UInt8) : Option UInt8 := if b &&& 0xFC = 0 then some b else
 
 /-- `DryocStream<Pull>::pull` in source order.  `retain = true`: `Tag::from_bits_retain(tag)` (current
 source, total); `retain = false`: `Tag::from_bits(tag).expect("invalid tag")` (before the fix "pull keeps undefined tag bits").
-`lengthGuard` as above (fix E5 added the same guard here).
+`lengthGuard` as above (fix E5 added the same guard here).  `pullFn` is the classic `pull` that is called
+(the current one, or the one before fix E16 — `dryocstream.rs` itself did not change with E16).
 The classic `pull` works on `&mut self.state` and the `?` returns early: the state afterwards is whatever the
 classic function left (`r.st`), on every branch — nothing restores it.  (`pullRawWith` itself reports the
 state it was given on `Err`, because every `return Err` of the classic function precedes its first write.) -/
-def objPullRawWith (lengthGuard retain : Bool) (P : Prims) (s : State) (ct ad : Bytes) :
-    Outcome (Bytes × UInt8) × State :=
+def objPullRawGen (pullFn : State → Bytes → UInt8 → Bytes → Bytes → Pulled) (lengthGuard retain : Bool)
+    (s : State) (ct ad : Bytes) : Outcome (Bytes × UInt8) × State :=
   if lengthGuard ∧ ct.length < ABYTES then (.err, s)
   else
     -- `message.resize(ciphertext.len() - ABYTES, 0)`
     match checkedSub ct.length ABYTES with
     | .ok n =>
-      let r := pullRawWith lengthGuard P s (zeros n) 0 ct ad
+      let r := pullFn s (zeros n) 0 ct ad
       match r.res with
       | .ok _ =>
         if retain then (.ok (r.buf, r.tag), r.st)
@@ -248,6 +314,11 @@ def objPullRawWith (lengthGuard retain : Bool) (P : Prims) (s : State) (ct ad : 
     | .err => (.err, s)
     | .panic => (.panic, s)
 
+/-- `DryocStream<Pull>::pull` over the classic `pull` of the current source (`pullRawWith lengthGuard`) -/
+def objPullRawWith (lengthGuard retain : Bool) (P : Prims) (s : State) (ct ad : Bytes) :
+    Outcome (Bytes × UInt8) × State :=
+  objPullRawGen (pullRawWith lengthGuard P) lengthGuard retain s ct ad
+
 def objPullCode (P : Prims) (s : State) (ct ad : Bytes) : Outcome (Bytes × UInt8) × State :=
   objPullRawWith true true P s ct ad
 
@@ -258,5 +329,9 @@ def objPullOld (P : Prims) (s : State) (ct ad : Bytes) : Outcome (Bytes × UInt8
 /-- counter-model: `DryocStream::pull` before fix E5 (no length guard, here or in the classic function) -/
 def objPullNoGuard (P : Prims) (s : State) (ct ad : Bytes) : Outcome (Bytes × UInt8) × State :=
   objPullRawWith false true P s ct ad
+
+/-- counter-model: `DryocStream::pull` over the classic `pull` before fix E16 -/
+def objPullCodeOld16 (P : Prims) (s : State) (ct ad : Bytes) : Outcome (Bytes × UInt8) × State :=
+  objPullRawGen (pullRawWithOld16 true P) true true s ct ad
 
 end DryocVerif.Model.SecretStream
